@@ -513,21 +513,32 @@ func checkC12(R *Run) {
 	// ---- chat-mgr-shape
 	if m := R.mustFn("(*hotline.MemChatManager).Members"); m != nil {
 		ok := false
-		eachInstr(m, func(i ssa.Instruction) {
-			mv := enumeratedMap(i)
-			if mv == nil {
-				return
-			}
-			if f, isF := loadedField(mv); isF && f == "hotline.PrivateChat.ClientConn" {
-				// the chat is chats[id]
-				u := mv.(*ssa.UnOp)
-				if fa, isFA := u.X.(*ssa.FieldAddr); isFA {
-					if lk, isL := fa.X.(*ssa.Lookup); isL && lk.Index == ssa.Value(m.Params[1]) {
-						ok = true
+		for _, mf := range withAnons(m) {
+			eachInstr(mf, func(i ssa.Instruction) {
+				mv := enumeratedMap(i)
+				if mv == nil {
+					return
+				}
+				// (enumerated inside a function literal — an iterator over the members — the map is what the literal captured)
+				mv = stripConv(canon(stripConv(mv)))
+				if f, isF := loadedField(mv); isF && f == "hotline.PrivateChat.ClientConn" {
+					// the chat is chats[id]
+					u, isU := mv.(*ssa.UnOp)
+					if !isU {
+						return
+					}
+					if fa, isFA := u.X.(*ssa.FieldAddr); isFA {
+						base := stripConv(resolveLocal(stripConv(fa.X)))
+						if ex, isEx := base.(*ssa.Extract); isEx && ex.Index == 0 {
+							base = ex.Tuple
+						}
+						if lk, isL := base.(*ssa.Lookup); isL && stripConv(resolveLocal(stripConv(lk.Index))) == ssa.Value(m.Params[1]) {
+							ok = true
+						}
 					}
 				}
-			}
-		})
+			})
+		}
 		R.check(ok, "chat-mgr-shape", fname(m), P.pos(m.Pos()), "ranges over chats[id].ClientConn", "Members does not enumerate the connections stored for the requested chat")
 	}
 	if l := R.mustFn("(*hotline.MemChatManager).Leave"); l != nil {
@@ -552,6 +563,48 @@ func checkC12(R *Run) {
 			}
 		})
 		R.check(ok, "chat-mgr-shape", fname(j), P.pos(j.Pos()), "ClientConn[cc.ID] = cc", "Join does not store the connection under its own ID")
+		// … on every path: a Join that returns without recording the member is confirmed to the client all the same
+		// (the handler has no way to know), and the member then receives nothing
+		if ok {
+			every := true
+			for _, ret := range returnsOf(j) {
+				if len(ret.Block().Preds) == 0 && ret.Block() != j.Blocks[0] {
+					continue
+				}
+				passed := mustPassBefore(j, ret, func(i ssa.Instruction) bool {
+					mu, isM := i.(*ssa.MapUpdate)
+					return isM && mu.Value == ssa.Value(j.Params[2])
+				})
+				if !passed {
+					every = false
+				}
+			}
+			R.check(every, "chat-mgr-shape", fname(j)+": every path", P.pos(j.Pos()), "no return before the member is recorded", "Join can return without having recorded the member (an early return for a chat it does not find): the join is confirmed to the client, who is a member for everybody but the manager and receives nothing")
+		}
+	}
+	// a chat outlives its members: invitations refer to it by ID, and an invitee may join after everybody else has left
+	{
+		nDel := 0
+		for _, fn := range P.Funcs {
+			if fn.Signature.Recv() == nil || typeName(derefType(fn.Signature.Recv().Type())) != "hotline.MemChatManager" {
+				continue
+			}
+			for _, f := range withAnons(fn) {
+				for _, ci := range callsIn(f) {
+					c := ci.Common()
+					if calleeName(c) != "builtin.delete" || len(c.Args) == 0 {
+						continue
+					}
+					if fl, isF := loadedField(stripConv(canon(stripConv(c.Args[0])))); isF && fl == "hotline.MemChatManager.chats" {
+						nDel++
+						R.bad("chat-mgr-shape", fmt.Sprintf("%s: delete from the chat registry #%d", fname(fn), nDel), P.ipos(ci), "a private chat is removed from the manager's registry: an invitation that is still outstanding then refers to nothing, and the invitee's join (which the handler confirms) is lost")
+					}
+				}
+			}
+		}
+		if nDel == 0 {
+			R.ok("chat-mgr-shape", "chat registry", "-", "no method of the chat manager removes a chat")
+		}
 	}
 	R.floor("chat-mgr-shape", 3)
 	R.rule("id-unique", "(shared with C13) chat members are addressed by client ID: no ID is handed to a second connection while registered, and the zero ID never")
